@@ -61,7 +61,13 @@ func (g *gen) time() int {
 
 func (g *gen) query() Query {
 	g.tr = nil
-	switch g.pick(6) {
+	switch g.pick(7) {
+	case 6:
+		if g.classic {
+			g.constraint(2+g.pick(3), false)
+			break
+		}
+		g.relationFamily()
 	case 5:
 		g.nodeTypeFamily()
 	case 4:
@@ -134,6 +140,41 @@ func (g *gen) inSetFamily() {
 		n.B = inset(leaf)
 	}
 	g.tr[i-1] = n
+}
+
+// relationFamily: parent / child relation constraints with every edge filter, any / all, over simple sub-constraints
+// (so that the relatives they select are few and specific), alone or under a logical operator.
+func (g *gen) relationFamily() {
+	rel := func() int {
+		i := g.alloc()
+		n := Node{K: "pn"}
+		n.Rel = []string{"parent", "child"}[g.pick(2)]
+		n.RelAny = !g.chance(3)
+		n.Edge = []string{"", "", "camliMember", "camliPath:x", "tag"}[g.pick(5)]
+		if g.chance(2) {
+			n.B = g.pnish()
+		} else {
+			n.B = g.constraint(g.pick(2), false)
+		}
+		g.tr[i-1] = n
+		return i
+	}
+	switch g.pick(3) {
+	case 0:
+		rel()
+	case 1:
+		i := g.alloc()
+		n := Node{K: []string{"and", "or", "xor"}[g.pick(3)]}
+		n.A = rel()
+		n.B = rel()
+		g.tr[i-1] = n
+	default:
+		i := g.alloc()
+		n := Node{K: "and"}
+		n.A = g.pnish()
+		n.B = rel()
+		g.tr[i-1] = n
+	}
 }
 
 // nodeTypeFamily: permanode-only trees in which camliNodeType atoms sit under every logical operator (and, or, xor,
